@@ -77,8 +77,8 @@ def judge(data, block, fault, with_hash, out, viol, stats):
         viol.append(("job-finished-twice", "a transfer job reported 'finished' more than once", w))
     if recv_ok and got != data:
         kind = (fault or {}).get("kind", "none")
-        if socks and kind == "flip" and not with_hash:
-            stats["socks5_flip_without_hash_not_detectable"] += 1   # nothing in the protocol protects the content then: not judged
+        if kind == "flip" and not with_hash:
+            stats[("socks5_" if socks else "ibb_") + "flip_without_hash_not_detectable"] += 1   # nothing in the protocol protects the content then: not judged
             return
         viol.append(("success-with-wrong-bytes%s%s fault=%s hash=%s" % (" socks5" if socks else "", " into-existing-file" if to_file is not None else "", kind, with_hash), "the receiver reports success but holds %d bytes that differ from the %d bytes sent" % (len(got), len(data)), w))
         return
